@@ -213,7 +213,24 @@ var errCheck = hx.NewCheck("structured_errors", oracleErr)
 
 func genRejected(rt *rapid.T) (string, []string) {
 	f := lexgen.Features{StringStartsWithDoubledQuote: false, TrailingComment: true, Comments: true}
-	switch rapid.IntRange(0, 9).Draw(rt, "kind") {
+	switch rapid.IntRange(0, 10).Draw(rt, "kind") {
+	case 10: // a well-formed number of another form where the statement has an integer (LIMIT 1.5, OFFSET 1e3, FETCH FIRST 99999999999999999999 ROWS)
+		g := sqlgen.New(rt, sqlgen.FullFeatures())
+		toks := sqlgen.Statement(g).Toks
+		var ints []int
+		for i, tk := range toks {
+			if len(tk.Text) > 0 && tk.Text[0] >= '0' && tk.Text[0] <= '9' && !strings.ContainsAny(tk.Text, ".eE") {
+				ints = append(ints, i)
+			}
+		}
+		form := rapid.SampledFrom([]string{"1.5", "1e3", "99999999999999999999", "2.0", "7E-2", "0.0"}).Draw(rt, "numform")
+		if len(ints) == 0 {
+			return sqlgen.SQL(toks) + " LIMIT " + form, []string{"number_form", "failing_token_not_first"}
+		}
+		at := ints[rapid.IntRange(0, len(ints)-1).Draw(rt, "numat")]
+		out := append([]sqlgen.Tok{}, toks...)
+		out[at] = sqlgen.Tok{Text: form}
+		return sqlgen.SQL(out), []string{"number_form", "failing_token_not_first"}
 	case 0, 1, 2, 3, 4: // single-token corruption
 		g := sqlgen.New(rt, sqlgen.FullFeatures())
 		toks := sqlgen.Statement(g).Toks
